@@ -405,7 +405,7 @@ theorem to_long_ids_partial (obs : List (ℕ × Obs))
       simp only [h, List.getElem_range]
     simp only [List.getElem_map] at this
     simp only [List.getElem_map, List.getElem_zipIdx, Nat.zero_add]
-    rw [← this]
+    exact Prod.ext this.symm rfl
 
 /-- … with other labels (a sub-selection `fdata[1:3]`, labels 1, 2) it is not. -/
 theorem to_long_ids_counterexample :
